@@ -18,18 +18,21 @@ def parse_script(script):
     """-> list of top-level nodes; node = dict(fn,t0,t1,kids,depth,forced,dropped)"""
     now = 1000
     roots, stack = [], []
-    for l in script:
+    for li, l in enumerate(script):
         p = l.split()
         if p[0] == "T":
             now = int(p[1])
         elif p[0] == "E":
             n = {"fn": int(p[2]), "t0": now, "t1": None, "kids": [], "depth": len(stack), "forced": False,
-                 "dropped": False, "kind": p[1]}
+                 "dropped": False, "kind": p[1], "li": li, "lx": None}
             (stack[-1]["kids"] if stack else roots).append(n)
             stack.append(n)
         elif p[0] == "X":
-            stack.pop()["t1"] = now
-        elif p[0] == "FLUSH":
+            n = stack.pop()
+            n["t1"] = now
+            n["lx"] = li
+        elif p[0] in ("FLUSH", "FORK"):
+            # FLUSH writes the open frames; FORK marks them written in the child
             for n in stack:
                 n["forced"] = True
     return roots
@@ -59,14 +62,17 @@ def expected_stream(script, max_stack, threshold=0):
             n["rec"] = n["forced"] or any(kids) or (n["t1"] is not None and n["t1"] - n["t0"] > threshold)
         return n["rec"]
     out = []
+    # a forked child writes its own data file: only what happens after the (last) FORK belongs to it
+    fork_at = max([i for i, l in enumerate(script) if l == "FORK"] + [-1])
 
     def emit(n):
         if not recorded(n):
             return
-        out.append("E:%d:%d:%d" % (n["depth"], n["fn"], n["t0"]))
+        if n["li"] > fork_at:
+            out.append("E:%d:%d:%d" % (n["depth"], n["fn"], n["t0"]))
         for k in n["kids"]:
             emit(k)
-        if n["t1"] is not None:
+        if n["t1"] is not None and n["lx"] > fork_at:
             out.append("X:%d:%d:%d" % (n["depth"], n["fn"], n["t1"]))
     for r in roots:
         emit(r)
@@ -156,6 +162,11 @@ def run(ctx):
                 dnow = sum(1 for l in sl[:pos] if l.startswith("E ")) - sum(1 for l in sl[:pos] if l == "X")
                 if dnow <= (o.max_stack or 1024):
                     sl.insert(pos, "FLUSH")
+            if rng.random() < 0.15:      # fork(): the child continues the parent's open calls in its own file
+                pos = rng.randrange(1, len(sl))
+                dnow = sum(1 for l in sl[:pos] if l.startswith("E ")) - sum(1 for l in sl[:pos] if l == "X")
+                if dnow <= (o.max_stack or 1024) and "FLUSH" not in sl:
+                    sl.insert(pos, "FORK")
             if rng.random() < 0.15:      # prefix history: calls still open at the end
                 cut = rng.randrange(1, len(sl))
                 sl = sl[:cut] + ["END"]
@@ -231,6 +242,10 @@ def run(ctx):
             dist["flush"] += "FLUSH" in c["script"]
             dist["open_at_end"] += depth_now > 0
             impl_stream = mcheck.stream(c["impl"])
+            if "FORK" in c["script"]:
+                fk = c["script"].index("FORK")
+                impl_stream = mcheck.stream(c["impl"][fk:])
+                dist["fork"] = dist.get("fork", 0) + 1
             exp = expected_stream(c["script"], ms)
             bad = None
             if c["bad_obs"]:
